@@ -10,7 +10,8 @@ void __verif_check(int cond, int id);                         /* harness obligat
 void __verif_assume(int cond);                                /* harness precondition / bound                  */
 void __verif_cover(int id);                                   /* reachability witness mark                     */
 void __verif_observe(uint64_t v);                             /* appended to the observation log (differential)*/
-void __verif_expect_throw(int on);                            /* harness declares: throws are expected here    */
+void __verif_expect_throw(int on);
+uint64_t __verif_concretize(uint64_t v);                      /* case split: returns v as a concrete value (engine forks over its feasible values) */                            /* harness declares: throws are expected here    */
 uint8_t nondet_u8(void);
 uint16_t nondet_u16(void);
 uint32_t nondet_u32(void);
@@ -24,6 +25,8 @@ static inline uint32_t verif_range(uint32_t lo, uint32_t hi) {
   return v;
 }
 static inline bool verif_bool() { return (nondet_u8() & 1) != 0; }
+static inline uint32_t verif_choice(uint32_t lo, uint32_t hi) { return (uint32_t)__verif_concretize(verif_range(lo, hi)); }  /* case split */
+static inline bool verif_cbool() { return __verif_concretize(nondet_u8() & 1) != 0; }
 #define verif_check(c, id) __verif_check((c) ? 1 : 0, id)
 #define verif_assume(c) __verif_assume((c) ? 1 : 0)
 #define verif_cover(id) __verif_cover(id)
